@@ -250,6 +250,34 @@ ENTRIES = ["cola::ConstrainedFDLayout::run", "cola::ConstrainedFDLayout::runOnce
            "cola::ConstrainedMajorizationLayout::run"]
 
 
+def rule_majorization_fresh(chk, prog):
+    r = chk.rule("MAJORIZATION-FRESH", "ConstrainedMajorizationLayout::run / runOnce: under constrainedLayout (and nothing else) a new "
+                 "GradientProjection is built for each dimension on every call, from the current compound constraints `ccs` and the "
+                 "current unsatisfiable-constraint lists -- the constructor is the only place where the majorization layout turns "
+                 "compound constraints into solver constraints, so constraints edited between two runs take effect", floor=4)
+    for q in ("cola::ConstrainedMajorizationLayout::run", "cola::ConstrainedMajorizationLayout::runOnce"):
+        fn = prog.fn(q)
+        news = [n for n in fn.nodes() if n.get("k") == "CXXNewExpr" and n.get("at") == "cola::GradientProjection"]
+        if len(news) != 2:
+            raise AnalysisBroken("%s: expected two GradientProjection constructions, found %d" % (q, len(news)))
+        for nw in news:
+            r.count()
+            pc = path_condition(fn, nw, inline=False)
+            ats = sorted(atoms(pc))
+            ctor = [c for c in nw["ch"] if c.get("k") == "CXXConstructExpr"][0]
+            args = [norm(a) for a in ctor["ch"]]
+            dimn = args[0].split("::")[-1]
+            inst = "%s: %s projection" % (q.split("::")[-1], dimn)
+            bad = None
+            if ats != ["constrainedLayout"] or not entails(("atom", "constrainedLayout"), pc):
+                bad = "the projection is (re)built only under %s: a later run() keeps projecting onto the constraints of the first run" % show(pc)[:140]
+            elif "ccs" not in args:
+                bad = "the projection is not built from the current compound constraints (arguments %s)" % args
+            elif not any(a.startswith("unsatisfiable") for a in args):
+                bad = "the unsatisfiable-constraint list is not handed to the projection"
+            (r.bad if bad else r.ok)(inst, fn.loc(nw), bad or "")
+
+
 def rule_makefeasible(chk, prog):
     r = chk.rule("MAKEFEASIBLE-PROTOCOL", "ConstrainedFDLayout::makeFeasible: (a) every constraint appended to valid[dim] is followed by "
                  "solver[dim]->satisfy() before the loop moves on -- in the combined-sub-constraint branch both dimensions are satisfied "
@@ -429,4 +457,5 @@ def run(chk):
     rule_creator(chk, prog)
     rule_projection(chk, prog)
     rule_makefeasible(chk, prog)
+    rule_majorization_fresh(chk, prog)
     rule_sizes(chk, prog, cg)
